@@ -26,6 +26,8 @@ def step (_ : Unit) (toks : List String) (rhs : String) : Unit × Verdict :=
   match toks with
   | ["reset"] => ((), .ok)
   | "all" :: n :: _mode :: order :: outs =>
+    if rhs = "hang" then ((), .spec s!"All({n} tasks) did not return although every task had finished")
+    else if rhs = "panic" then ((), .spec s!"All({n} tasks) panicked") else
     match n.toNat?, natList? order, outs.mapM parseOutcome, (rhs.splitOn " ").filter (· ≠ "") with
     | some n, some order, some outs, [res, errs, fin] =>
       if outs.length ≠ n then ((), .bad "arity") else
